@@ -61,7 +61,7 @@ static JanetSlot qq_slots(JanetFopts opts, JanetSlot *slots, int makeop) {
 }
 
 static JanetSlot quasiquote(JanetFopts opts, Janet x, int depth, int level) {
-    if (depth == 0) {
+    if (depth <= 0) {
         janetc_cerror(opts.compiler, "quasiquote too deeply nested");
         return janetc_cslot(janet_wrap_nil());
     }
@@ -81,7 +81,13 @@ static JanetSlot quasiquote(JanetFopts opts, Janet x, int depth, int level) {
                     if (level == 0) {
                         JanetFopts subopts = janetc_fopts_default(opts.compiler);
                         subopts.flags |= JANET_FOPTS_ACCEPT_SPLICE;
-                        return janetc_value(subopts, tup[1]);
+                        /* The unquoted form is compiled with what is left of our depth budget, so that
+                         * quasiquotes nested through unquotes share one budget instead of multiplying. */
+                        int32_t saved_guard = opts.compiler->recursion_guard;
+                        if (depth < saved_guard) opts.compiler->recursion_guard = depth;
+                        JanetSlot ret = janetc_value(subopts, tup[1]);
+                        opts.compiler->recursion_guard = saved_guard;
+                        return ret;
                     } else {
                         level--;
                     }
@@ -126,7 +132,8 @@ static JanetSlot janetc_quasiquote(JanetFopts opts, int32_t argn, const Janet *a
         janetc_cerror(opts.compiler, "expected 1 argument to quasiquote");
         return janetc_cslot(janet_wrap_nil());
     }
-    return quasiquote(opts, argv[0], JANET_RECURSION_GUARD, 0);
+    /* Start from what is left of the compiler's recursion budget (see the unquote case above) */
+    return quasiquote(opts, argv[0], opts.compiler->recursion_guard, 0);
 }
 
 static JanetSlot janetc_unquote(JanetFopts opts, int32_t argn, const Janet *argv) {
